@@ -228,7 +228,23 @@ func genTmplT(t *rapid.T, names []string, forbidden map[string]bool) []gen.TmplP
 	for i := 0; i < n; i++ {
 		a := rapid.SampledFrom(ok).Draw(t, "tmpl-a")
 		b := rapid.SampledFrom(ok).Draw(t, "tmpl-b")
-		switch rapid.IntRange(0, 10).Draw(t, "tmpl-kind") {
+		switch rapid.IntRange(0, 14).Draw(t, "tmpl-kind") {
+		case 11:
+			parts = append(parts, gen.TmplPart{Kind: rapid.SampledFrom([]string{"alignLeft", "alignRight"}).Draw(t, "tmpl-align"), A: a,
+				N: rapid.SampledFrom([]int{-1, 0, 1, 2, 3, 5, 8, 20}).Draw(t, "tmpl-width")})
+		case 12:
+			switch rapid.IntRange(0, 2).Draw(t, "tmpl-edit") {
+			case 0:
+				parts = append(parts, gen.TmplPart{Kind: "replace", A: a, Text: rapid.SampledFrom([]string{"a", "e", "/", " ", "10", "ab"}).Draw(t, "tmpl-old"),
+					Text2: rapid.SampledFrom([]string{"", "_", "aa", "é"}).Draw(t, "tmpl-new")})
+			case 1:
+				parts = append(parts, gen.TmplPart{Kind: rapid.SampledFrom([]string{"trimPrefix", "trimSuffix"}).Draw(t, "tmpl-trimfn"), A: a,
+					Text: rapid.SampledFrom([]string{"a", "/", "w", "1", "GET", "d"}).Draw(t, "tmpl-affix")})
+			default:
+				parts = append(parts, gen.TmplPart{Kind: "if_contains", A: a, Text: rapid.SampledFrom([]string{"a", "e", "/", "0", ""}).Draw(t, "tmpl-needle")})
+			}
+		case 13:
+			parts = append(parts, gen.TmplPart{Kind: rapid.SampledFrom([]string{"b64enc", "regex_wrap", "ts_millis"}).Draw(t, "tmpl-misc"), A: a})
 		case 0:
 			parts = append(parts, gen.TmplPart{Kind: "lit", Text: rapid.SampledFrom([]string{"x", "-", " => ", "[", "lit", "\"q\"", "ünï"}).Draw(t, "tmpl-lit")})
 		case 1:
